@@ -402,7 +402,9 @@ pub fn run_reuse(s: &mut Src, ctx: &mut Ctx) -> Verdict {
             let _ = facts.set_nested(INTS[k], rust_rule_engine::Value::Integer(v));
         }
         let mut cb: Vec<String> = Vec::new();
-        let use_cb = call % 2 == 0;
+        // the two entry points alternate; which one goes first depends on the case (so that a swap of the knowledge
+        // base can lie between two calls of the SAME entry point)
+        let use_cb = (call + crate::core::case_bit(11) as usize) % 2 == 0;
         let res = catch(|| if use_cb { engine.execute_with_callback(&facts, |n, _| cb.push(n.to_string())) } else { engine.execute(&facts) });
         let res = match res {
             Ok(r) => r,
